@@ -28,6 +28,7 @@ def _run(prog: Program, rep: Report, tier: str) -> None:
     inplace_discipline(prog, rep)
     negative_dims(prog, rep)
     dtype_generic_limits(prog, rep)
+    constructions_state_default(prog, rep)
 
 
 def negative_dims(prog: Program, rep: Report) -> None:
@@ -102,3 +103,30 @@ def dtype_generic_limits(prog: Program, rep: Report) -> None:
     rep.analysed['float_info_uses_in_PatternedTensor'] = n
     ctl = ast.parse("self.default = float_info.max if posinf is None else posinf").body[0]
     rep.ob(rule, 'positive-control', 'an unguarded float_info.max is recognised', '-', any(isinstance(x, ast.Attribute) and x.attr == 'max' for x in ast.walk(ctl)), '', nontrivial=False)
+
+
+def constructions_state_default(prog: Program, rep: Report) -> None:
+    """A PatternedTensor built with an explicit pattern (paxes / vaxes given) stands for a tensor most of whose elements may be
+    unstored: the value of those elements must be stated.  Omitting `default` silently makes it 0 -- a slice, view or copy of a
+    tensor with another default then denotes a different tensor."""
+    import ast
+    from ..model import own_nodes, norm
+    rule = 'C06-D5 constructions-state-default'
+    rep.rule('C06-D5', 'every PatternedTensor(...) constructed with an explicit pattern (paxes/vaxes) in fggs/ passes a default: slices, views, copies and readers never fall back to the implicit 0')
+    n = 0
+    for m in prog.modules.values():
+        if not m.name.startswith('fggs'):
+            continue
+        for f in m.functions.values():
+            if f.is_lambda:
+                continue
+            for c in [x for x in own_nodes(f.node, into_lambdas=True) if isinstance(x, ast.Call) and isinstance(x.func, ast.Name) and x.func.id == 'PatternedTensor']:
+                kw = {k.arg for k in c.keywords}
+                if len(c.args) >= 3 or ({'paxes', 'vaxes'} & kw):
+                    n += 1
+                    ok = len(c.args) >= 4 or 'default' in kw or None in kw
+                    if not ok:
+                        rep.ob(rule, f.fq(), norm(c)[:90], f.loc(c), False,
+                               'no default given: the unstored elements of the result are 0 whatever the default of the tensor it was made from')
+    rep.ob(rule, 'fggs', f"{n} pattern-carrying constructions pass a default", '-', True, '', nontrivial=False)
+    rep.floor('C06-D5', n, 50)
